@@ -45,6 +45,8 @@ pub struct Edge {
     /// `None` if the target is not in any live list (dangling)
     pub to_heap: Option<u64>,
     pub type_name: &'static str,
+    /// type of the holding object ("" for a root edge)
+    pub from_type: &'static str,
 }
 
 #[derive(Debug, Default)]
@@ -52,7 +54,7 @@ pub struct Visitor {
     /// address -> owning heap, for every object in every heap of the vm
     pub live: HashMap<usize, u64>,
     pub visited: HashSet<usize>,
-    pub stack: Vec<(usize, u64)>,
+    pub stack: Vec<(usize, u64, &'static str)>,
     pub root_heap: u64,
     pub edges: usize,
     pub bad: Vec<Edge>,
@@ -75,14 +77,16 @@ impl Visitor {
 
     pub(crate) fn edge(&mut self, to: usize, to_heap: Option<u64>, type_name: &'static str) {
         self.edges += 1;
-        let from = self.stack.last().cloned();
+        let last = self.stack.last().cloned();
+        let from = last.map(|(a, h, _)| (a, h));
+        let from_type = last.map_or("", |(_, _, t)| t);
         let holder_heap = from.map_or(self.root_heap, |(_, h)| h);
         let ok = match to_heap {
             None => false,
             Some(h) => self.may_point(holder_heap, h),
         };
         if !ok {
-            self.bad.push(Edge { from, holder_heap, to, to_heap, type_name });
+            self.bad.push(Edge { from, holder_heap, to, to_heap, type_name, from_type });
         }
     }
 }
@@ -94,6 +98,10 @@ pub struct HeapReport {
     pub reachable_objects: usize,
     pub edges: usize,
     pub bad: Vec<Edge>,
+    /// heap id -> depth in the generation tree (global heap 0, root thread 1, its children 2, ...)
+    pub heap_depth: HashMap<u64, u32>,
+    /// heap id -> parent heap id (the global heap has no entry)
+    pub heap_parent: HashMap<u64, u64>,
 }
 
 // ---- H6: memory accounting peaks -------------------------------------------------------------
